@@ -281,14 +281,18 @@ def run(tier, replay=None):
         list(pool.map(job, jobs))
     finally:
         pool.shutdown()
+    seen = set()
+    rng.shuffle(jobs)
     for ch, d, kind in jobs:
         nviol = len(res.violations); nk = res.cov.get("known_finding_hits", 0)
         for v in ch:
             judge(res, kf, v, outs[v["id"]], d)
-            if rng.random() < 0.0015 or (v["cls"] == "reject" and v["why"].startswith("range") and rng.random() < 0.02):
-                res.sample({"source": "constant" if v["tag"] == "C" else "fact file (%s)" % ",".join(v["types"]), "text": io.text(v["vec"]),
-                            "specification": v["cls"] + (" " + v["why"] if v["why"] else ""),
-                            "real": "%s %s" % (outs[v["id"]]["kind"], (outs[v["id"]].get("err") or str(outs[v["id"]].get("res")))[-120:])}, limit=10)
+            key = (v.get("fam", "const-" + v.get("ty", "")), v["cls"])
+            if key not in seen and (v["cls"] != "reject" or v["why"].startswith("range") or rng.random() < 0.05) and len(io.seq(v["vec"])) > 1:
+                seen.add(key)
+                res.sample({"source": "constant of type " + v["ty"] if v["tag"] == "C" else "fact file (%s)%s" % (",".join(v["types"]), " rfc4180" if v["rfc"] else ""),
+                            "text": io.text(v["vec"]), "specification": v["cls"] + (" " + v["why"] if v["why"] else ""),
+                            "real": "%s %s" % (outs[v["id"]]["kind"], (outs[v["id"]].get("err") or str(outs[v["id"]].get("res")))[-120:])}, limit=14)
         if len(res.violations) == nviol and res.cov.get("known_finding_hits", 0) == nk:
             shutil.rmtree(d, ignore_errors=True)
     res.cov["souffle_processes"] = NPROC[0]
